@@ -28,3 +28,84 @@ def setup():
         return 2
     print("setup: ok (python %s, scratch builds pure+compiled work)" % sys.version.split()[0])
     return 0
+
+
+def determinism(seed=None, props=None, n_seeds=4, runs=48):
+    """Same VERIF_SEED twice in fresh interpreters -> identical per-run digests (case, event/outcome digest, violation class);
+    the generator is independent of PYTHONHASHSEED; results do not depend on address-space randomisation (with and
+    without `setarch -R`).  Exit 0 if all hold, 2 otherwise (this is a harness self-test, never a VIOLATION)."""
+    import json
+    import time
+    from concurrent.futures import ThreadPoolExecutor
+    from . import build, runner
+    from .registry import REG
+    props = props or sorted(REG)
+    seeds = [20260929 + 7919 * i for i in range(n_seeds)] if seed is None else [seed + 7919 * i for i in range(n_seeds)]
+    build.install_signal_cleanup()
+    scratch = build.make_scratch(need_compiled=True)
+    jobs = []
+    for p in props:
+        builds = REG[p]["builds"]
+        for s in seeds:
+            b = builds[len(jobs) % len(builds)]
+            for variant in ("A", "A2", "H", "N"):
+                jobs.append((p, s, b, variant))
+
+    def do(job):
+        p, s, b, variant = job
+        hs = 12345 if variant != "H" else 54321
+        args = ["--prop", p, "--seed", str(s), "--tier", "quick", "--runs", "0:%d" % runs, "--dump-digests", "--no-shrink",
+                "--known", "*", "--replay-dir", os.path.join(scratch["root"], "replays")]
+        if variant == "N":
+            os.environ["XSIM_NO_SETARCH_ONCE"] = "1"
+        cmd, env = runner.worker_cmd(scratch, b, hs, args)
+        if variant == "N" and cmd[0] == "setarch":
+            cmd = cmd[3:]
+        import subprocess
+        r = subprocess.run(cmd, env=env, capture_output=True, text=True, timeout=1800, cwd=VERIF)
+        lines = [l for l in r.stdout.splitlines() if l.startswith("{")]
+        if not lines:
+            return job, None, r.stderr[-1500:]
+        res = json.loads(lines[-1])
+        if res.get("type") != "batch":
+            return job, None, str(res.get("msg"))[:1500]
+        return job, res["run_digests"], None
+
+    t0 = time.time()
+    with ThreadPoolExecutor(max_workers=os.cpu_count() or 4) as tp:
+        out = list(tp.map(do, jobs))
+    build.remove_scratch(scratch)
+    res = {}
+    bad = []
+    for job, dig, err in out:
+        if dig is None:
+            bad.append("%s: worker failed: %s" % (job, err))
+            continue
+        res[job] = dig
+    n_cmp = 0
+    for p in props:
+        for s in seeds:
+            b = [j for j in res if j[0] == p and j[1] == s]
+            if not b:
+                continue
+            bb = b[0][2]
+            A, A2, H, N = (res.get((p, s, bb, v)) for v in ("A", "A2", "H", "N"))
+            if A is None:
+                continue
+            n_cmp += len(A)
+            if A2 is not None and A != A2:
+                k = next(i for i, (x, y) in enumerate(zip(A, A2)) if x != y)
+                bad.append("%s seed %d build %s: two fresh interpreters with the same hash seed disagree at run %s: %s vs %s" % (p, s, bb, A[k][0], A[k][1:4], A2[k][1:4]))
+            if H is not None and [x[1] for x in A] != [x[1] for x in H]:
+                k = next(i for i, (x, y) in enumerate(zip(A, H)) if x[1] != y[1])
+                bad.append("%s seed %d: the GENERATOR depends on PYTHONHASHSEED (run %s)" % (p, s, A[k][0]))
+            if N is not None and A != N:
+                k = next(i for i, (x, y) in enumerate(zip(A, N)) if x != y)
+                bad.append("%s seed %d build %s: result depends on address-space randomisation (run %s: %s vs %s)" % (p, s, bb, A[k][0], A[k][1:4], N[k][1:4]))
+    print("determinism self-test: %d properties x %d seeds x %d runs, 4 interpreters each (same seed twice, other hash seed, no setarch -R); "
+          "%d run digests compared in %.0fs" % (len(props), len(seeds), runs, n_cmp, time.time() - t0))
+    for b in bad[:20]:
+        print("  FAIL: " + b)
+    if not bad:
+        print("  all identical")
+    return 2 if bad else 0
